@@ -204,11 +204,13 @@ def run_property(pid, tier="quick", repo_root=None, jobs=None):
         else:
             discharged += 1
     guard_fail = [g for g in guards if g["status"] != "unsat"]
-    n_obl = len([o for o in obligations.values() if not ("bounded" in o and o["paths"] == 0)])
+    known_names = {ob["name"] for _kf, ob in known}
+    n_obl = len([o for o in obligations.values() if not ("bounded" in o and o["paths"] == 0) and o["name"] not in known_names])
     replay_dir = os.path.join(VERIF, "replays", pid)
     status = 0
     for kf, ob in known:
-        lines.append(f"KNOWN-FINDING: property={pid} {kf['what']} [obligation {ob['name']}]")
+        path = write_replay(replay_dir, pid, ob, repo_root)
+        lines.append(f"KNOWN-FINDING: property={pid} {kf['what']} [obligation {ob['name']}; replay {path}]")
     for ob in violations:
         path = write_replay(replay_dir, pid, ob, repo_root)
         tail = "" if ob.get("reproduced") else " no-failing-input-found"
@@ -264,6 +266,7 @@ def run_property(pid, tier="quick", repo_root=None, jobs=None):
             "not_covered": info.get("not_covered", ""),
             "bounded": bounded,
             "known_findings": [kf["id"] for kf, _ in known],
+            "known_finding_obligations_not_counted_as_discharged": sorted(known_names),
             "samples": samples,
             "what_is_proved": info.get("proved", ""),
             "engine_errors": errors,
